@@ -12,7 +12,7 @@ RULE = ('event trees on 1-3 buses (serial and parallel_handlers): several handle
         "handler's own event, dispatches from main right after a handler returned and while handlers are suspended; all schedules <= L deviations; both bus orders. "
         'non-trivial = a handler dispatched a child or an event was forwarded; distinct = distinct recorder traces')
 ASSUMPTIONS = ['lineage expected values come from harness dispatch records (who called dispatch), never from the library fields under test',
-               'membership of an explicitly-parented event in event_children is not asserted (the statement is silent)']
+               'an explicitly-parented event dispatched inside a handler is still expected among that handler\'s children (literal reading of the statement; the unchanged code does so)']
 
 
 def families(tier):
@@ -81,6 +81,12 @@ def families(tier):
         hs.append(dict(bus='A', pat='X', name='hx', prog=[('bus?',)]))
         buses = {n: dict(parallel=(par and n == 'A')) for n in names}
         add('c09.after_child_outcome', f'{fail}-f{int(fwd)}-p{int(par)}-{nxt}-c{cbus}', buses, hs, main, forwards=[('A', 'B')] if fwd else [], fwd_first=fwd, fail=fail)
+    for ebus, mode in itertools.product('AB', ('ff', 'await')):
+        # handler of C (child of P) dispatches leaves: auto-parented, explicit parent = its own event, explicit parent = the root
+        hs = [dict(bus='A', pat='P', name='hp', prog=[('disp', 'A', 'C', 'await')]),
+              dict(bus='A', pat='C', name='hc', prog=[('disp', ebus, 'G', mode), ('disp', ebus, 'Q', mode, {'parent': 'C<hp:P'}), ('disp', ebus, 'Z', mode, {'parent': 'P'}), ('pause',)]),
+              dict(bus=ebus, pat='G', name='hg', prog=[('ret', 1)]), dict(bus=ebus, pat='Q', name='hq', prog=[('ret', 1)]), dict(bus=ebus, pat='Z', name='hz', prog=[('ret', 1)])]
+        add('c09.explicit_parent', f'{ebus}-{mode}', {'A': {}, 'B': {}} if ebus == 'B' else {'A': {}}, hs, [('disp', 'A', 'P', 'await')])
     for shape in ['redisp_pause', 'redisp_child']:
         hp = [('redisp', 'A', 'self'), ('pause',)] if shape == 'redisp_pause' else [('redisp', 'A', 'self'), ('disp', 'A', 'C', 'await')]
         hs = [dict(bus='A', pat='P', name='hp', prog=hp), dict(bus='A', pat='C', name='hc', prog=[('disp', 'A', 'G', 'ff', {'parent': 'P'})]),
@@ -126,6 +132,11 @@ def oracle(spec, res):
         if key in explicit:
             if fe['parent'] != explicit[key]:
                 out.append(V('explicit_parent_overwritten', f'{x}: parent {fe["parent"]} expected explicit {explicit[key]}'))
+            if who in tr.who_info:
+                # "an event dispatched from inside a handler ... appears exactly once among the children of that specific handler's result" - whatever its parent id says
+                b, h, e = tr.who_info[who]
+                if sorted(member.get(x, [])) != [(e, b, h)]:
+                    out.append(V('wrong_children_attribution', f'{x} (explicit parent {explicit[key]}) dispatched by {who}: appears as child in {member.get(x, [])}, expected exactly {[(e, b, h)]}'))
             continue
         if who in tr.who_info:
             b, h, e = tr.who_info[who]
